@@ -142,14 +142,14 @@ def nodelist_threads(rng, res):
     nn   = rng.choice([1, 1, 2])
     nodes = [rp.Node({'index': i, 'name': 'n%d' % i,
                       'cores': [rpc.FREE] * cpn, 'gpus': [rpc.FREE] * gpn,
-                      'lfs': 0, 'mem': 0}) for i in range(nn)]
+                      'lfs': 100, 'mem': 100}) for i in range(nn)]
     nl = rp.NodeList(nodes=nodes)
     nl.verify()
     for n in nl.nodes:
         n.__lock__ = YieldLock(n.__lock__, seed, 'node.%d' % n.index,
                                sleeps=[0, 0, 0.0002, 0.0005, 0.001])
     case  = {'seed': seed, 'cpn': cpn, 'gpn': gpn, 'nodes': nn}
-    bad, errs = list(), list()
+    bad, errs, over = list(), list(), list()
 
     def app(k):
         r    = random.Random(seed * 7 + k)
@@ -161,7 +161,8 @@ def nodelist_threads(rng, res):
                     continue
                 rr = rp.RankRequirements(
                         n_cores=r.choice([1, 2, cpn]),
-                        n_gpus=r.choice([0, 0, 1]) if gpn else 0)
+                        n_gpus=r.choice([0, 0, 1]) if gpn else 0,
+                        lfs=r.choice([0, 0, 50]), mem=r.choice([0, 0, 50]))
                 try:
                     slots = nl.find_slots(rr, n_slots=1)
                 except (ValueError, RuntimeError):
@@ -174,6 +175,23 @@ def nodelist_threads(rng, res):
                        len({g.index for g in sl.gpus})  != rr.n_gpus:
                         bad.append('thread %d: %s for %s' % (k, sl.as_dict(),
                                                              rr))
+                    # what this rank holds is held by nobody else (C01)
+                    node = nl.nodes[sl.node_index]
+                    for c in sl.cores:
+                        if node.cores[c.index].occupation > 1.0 + EPS:
+                            over.append('thread %d: core %d of node %d is '
+                                        'held %.2f times' % (k, c.index,
+                                        node.index,
+                                        node.cores[c.index].occupation))
+                    for g in sl.gpus:
+                        if node.gpus[g.index].occupation > 1.0 + EPS:
+                            over.append('thread %d: gpu %d of node %d is held '
+                                        '%.2f times' % (k, g.index, node.index,
+                                        node.gpus[g.index].occupation))
+                    if (node.lfs is not None and node.lfs < 0) or \
+                       (node.mem is not None and node.mem < 0):
+                        over.append('thread %d: node %d has lfs %s mem %s'
+                                    % (k, node.index, node.lfs, node.mem))
                 time.sleep(0)
             for slots in live:
                 nl.release_slots(slots)
@@ -193,10 +211,12 @@ def nodelist_threads(rng, res):
         return case
     for b in bad[:1]:
         res.violation('nodelist-slot-shape/threads', b, case)
+    for o in over[:1]:
+        res.violation('nodelist-oversubscribed/threads', o, case)
     for n in nl.nodes:
         occ = [round(c.occupation, 9) for c in n.cores] + \
               [round(g.occupation, 9) for g in n.gpus]
-        if any(o != 0 for o in occ):
+        if any(o != 0 for o in occ) or n.lfs != 100 or n.mem != 100:
             res.violation('nodelist-threads/not-free-after-all-releases',
                           'node %d: %s' % (n.index, occ), case)
             break
